@@ -290,13 +290,19 @@ def run(chk):
     for u in urls:
         tr = next((t for t in prog.enclosing(u, (ast.Try,)) if prog.in_body_of(u, t, "body") and any("ValueError" in PC.handler_types(h) for h in t.handlers)), None)
         tname = norm.raw(u.targets[0])
-        forced = tr is not None and any(isinstance(n, ast.Attribute) and n.attr in ("port", "host", "authority", "explicit_port") and norm.raw(n.value) == tname for st_ in tr.body for n in ast.walk(st_))
+        # ... by an access that reads *this* value: after the assignment and before the name is bound again (fifth hunt: the Location is
+        # re-parsed once its blanks are quoted, and an access behind the second parse said nothing about the first)
+        later = [s2.lineno for s2 in ast.walk(red) if isinstance(s2, ast.Assign) and s2 is not u and norm.raw(s2.targets[0]) == tname and s2.lineno > u.lineno]
+        upto = min(later) if later else 10**9
+        forced = tr is not None and any(isinstance(n, ast.Attribute) and n.attr in ("port", "host", "authority", "explicit_port") and norm.raw(n.value) == tname and u.lineno < n.lineno < upto
+                                        for st_ in tr.body for n in ast.walk(st_))
         if forced:
             chk.ok("C17.entry", u, f"the redirect target `{tname}` has its netloc validated inside the ValueError guard")
         else:
             chk.violation("C17.entry", u, K.short(u, 70), f"{tname}.port inside the try", "with requote_redirect_url=False the Location is parsed with encoded=True, which defers netloc validation: `Location: http://b.test:abc/` passes every guard and the next hop raises a bare ValueError (not a ClientError) from server-controlled input")
     hunt2_rules(chk, repo, rq, red)
     hunt3_rules(chk, repo, rq, red)
+    hunt5_rules(chk, repo, rq, red)
     inc = [s for s in ast.walk(red) if isinstance(s, ast.AugAssign) and norm.raw(s) == "redirects += 1"]
     if inc and tm and inc[0].lineno < tm[0].lineno:
         chk.ok("C17.limit", inc[0], "the counter is incremented before it is compared (at most max_redirects requests)")
@@ -355,6 +361,68 @@ def _root_text(e) -> str:
             e = e.value
         else:
             return norm.raw(e)
+
+
+def hunt5_rules(chk, repo, rq, red):
+    """Rules written after the fifth defect hunt (F297-F300)."""
+    DG = "aiohttp/client_middleware_digest_auth.py"
+    # ---- C17.join.raw: a relative Location is resolved against the raw path of the current URL -----------------------------------------------------------
+    # yarl's URL.join() merges a relative path with the *decoded* segments of a base whose path does not end in `/`: `/my%20docs/index` + `other`
+    # becomes `/my docs/other` on the wire, `%2F` in the directory becomes a separator (another resource), `%0D%0A` raises a bare ValueError.
+    joins = [c for c in ast.walk(red) if isinstance(c, ast.Call) and isinstance(c.func, ast.Attribute) and c.func.attr == "join" and c.args and not isinstance(c.func.value, ast.Constant)]
+    if not joins:
+        chk.analysis_error("C17.join.raw: no `<base>.join(<Location>)` found in the redirect branch")
+    for c in joins:
+        base = c.func.value
+        vals = [v for _d, v in norm.fn_defs(rq.node).defs.get(base.id, []) if v is not None] if isinstance(base, ast.Name) else []
+        raw_based = [v for v in vals if isinstance(v, ast.Call) and isinstance(v.func, ast.Attribute) and v.func.attr == "with_path" and any(k.arg == "encoded" and isinstance(k.value, ast.Constant) and k.value.value is True for k in v.keywords)]
+        if raw_based and any(isinstance(a, ast.Assign) and a.value is raw_based[0] and any("startswith('/')" in norm.raw(i.test) or 'startswith("/")' in norm.raw(i.test) for i in prog.enclosing(a, (ast.If,))) for a in ast.walk(red)):
+            chk.ok("C17.join.raw", c, "a Location with a relative path is joined to a base whose last raw path segment was cut off (encoded=True): yarl merges raw texts, dot segments are still resolved")
+        else:
+            chk.violation("C17.join.raw", c, K.short(c), "base_url = url.with_path(url.raw_path[: url.raw_path.rfind('/') + 1], encoded=True) for a relative path",
+                          "a relative Location is joined to the hop URL itself: yarl merges it with the percent-decoded segments - `GET /my%20docs/index` answered `302 Location: other` puts `GET /my docs/other HTTP/1.1` on the wire, a `%2F` of the directory becomes a path separator (another resource is requested) and `%0D%0A` makes session.get() raise a bare ValueError")
+    # ---- C17.entry.requoted: a Location that is re-parsed after its blanks were quoted is validated again ---------------------------------------------------
+    nre = 0
+    for a in ast.walk(red):
+        if isinstance(a, ast.Assign) and norm.raw(a.targets[0]) == "parsed_redirect_url" and isinstance(a.value, ast.Call) and norm.raw(a.value.func) == "URL" and a.value.args and ".replace(" in norm.raw(a.value.args[0]):
+            nre += 1
+            blk = PC._block_of(a) or []
+            after = blk[blk.index(a) + 1:] if a in blk else []
+            forced = [x for x in after if isinstance(x, ast.Expr) and isinstance(x.value, ast.Attribute) and norm.raw(x.value.value) == "parsed_redirect_url" and x.value.attr in ("port", "host", "explicit_port", "authority")]
+            handled = any(any(t in ("ValueError",) for t in PC.handler_types(h)) for _t, h in K.enclosing_try_handlers(a))
+            if forced and handled:
+                chk.ok("C17.entry", forced[0], "the URL re-parsed with quoted blanks has its authority split (`.port`) under the handler that turns ValueError into InvalidUrlRedirectClientError")
+            else:
+                chk.violation("C17.entry", a, K.short(a), "parsed_redirect_url.port  right after the re-parse, inside the try",
+                              "with requote_redirect_url=False a Location whose blank stands next to the port (`http://a.test:8080 /fin`) passes the first parse (int('8080 ') is accepted), is re-parsed with `%20` in the port and never validated: session.get() raises a bare `ValueError: port can't be converted to integer` instead of InvalidUrlRedirectClientError")
+    chk.expect_count("C17.entry.requoted", nre, 1, "re-parses of a Location whose blanks were quoted")
+    # ---- C17.strip.norm: the two origins are compared in normal form ----------------------------------------------------------------------------------------
+    mod_txt = ""
+    for i in ast.walk(red):
+        if isinstance(i, ast.If) and isinstance(i.test, ast.Compare) and any(isinstance(x, ast.Call) and isinstance(x.func, ast.Name) for x in (i.test.left, i.test.comparators[0])):
+            for x in (i.test.left, i.test.comparators[0]):
+                r_ = repo.resolve_name(rq.module, x.func.id) if isinstance(x, ast.Call) and isinstance(x.func, ast.Name) else None
+                if r_ and r_[0] == "func":
+                    mod_txt += norm.raw(r_[1].node)
+        elif isinstance(i, ast.If) and isinstance(i.test, ast.Compare) and "raw_host" in norm.raw(i.test) and "scheme" in norm.raw(i.test):
+            mod_txt += norm.raw(i.test)
+    if ".lower()" in mod_txt and ("'ws'" in mod_txt or '"ws"' in mod_txt):
+        chk.ok("C17.strip", red, "the cross-origin test lower-cases the host and takes ws / wss for http / https on both sides")
+    else:
+        chk.violation("C17.strip", red, "cross-origin test", "scheme: ws -> http, wss -> https; host.lower() - on both sides",
+                      "the same-origin test compares scheme and host as text: `ws_connect('ws://a.test:P/ws', headers={'Authorization': ...})` answered `301 Location: http://a.test:P/ws/` (same host, port and TLS state) loses Authorization and the cookies and the handshake ends in 401; `http://A.test` redirected to `http://a.test` counts as another origin as well")
+    # ---- C17.strip.digest: the digest middleware scopes its credentials by the same notion of origin ----------------------------------------------------------
+    dc = repo.func(DG, "DigestAuthMiddleware.__call__")
+    ovals = [v for _d, v in norm.fn_defs(dc.node).defs.get("origin", []) if v is not None]
+    if not ovals:
+        chk.analysis_error("C17.strip.digest: the origin of the request is not computed in DigestAuthMiddleware.__call__ any more")
+    elif any(isinstance(v, ast.Call) and isinstance(v.func, ast.Attribute) and v.func.attr == "origin" for v in ovals):
+        chk.violation("C17.strip.digest", ovals[0], K.short(ovals[0]), "(url.scheme, url.raw_host.lower(), url.port)",
+                      "DigestAuthMiddleware compares yarl origins, i.e. the netloc text: `GET http://a.test/` -> `301 Location: http://a.test:80/app` -> `401 Digest` is taken for a foreign origin, the 401 is handed to the caller and the credentials are never used, while `Location: http://a.test/app` authenticates")
+    elif all(isinstance(v, ast.Tuple) and ".port" in norm.raw(v) and ".lower()" in norm.raw(v) for v in ovals):
+        chk.ok("C17.strip.digest", ovals[0], "DigestAuthMiddleware scopes its credentials by (scheme, lower-cased host, effective port)")
+    else:
+        chk.violation("C17.strip.digest", ovals[0], K.short(ovals[0]), "(url.scheme, url.raw_host.lower(), url.port)", "the origin the digest credentials are scoped to is not (scheme, lower-cased host, effective port)")
 
 
 def hunt3_rules(chk, repo, rq, red):
